@@ -453,10 +453,15 @@ ImpInlined(i) == SelectSeq(ImpDep, LAMBDA d : d.k # "const") \o (IF ImpCase(i).d
 DupRoot == << [k |-> "import", path |-> "./dep.bop"], Co("int32", "rc", "1"), St("RootS", << F("a", P("int32")) >>),
               En("RootE", "", << Mem("A", "1", <<1,0,0,0>>) >>), MsOp("RootOp", "7", <<7,0,0,0>>, << FI(1, "b", P("bool")) >>),
               Un("RootU", << Br(1, St("RootUA", << F("a", P("int32")) >>)) >>) >>
-DupKinds == << "none", "const", "struct", "enum", "message named like a struct", "opcode", "union", "struct named like a union branch" >>
+\* (an opcode identifies a record on the wire: it must be unique whichever way the imported file is generated)
+DupKinds == << "none", "const", "struct", "enum", "message named like a struct", "opcode", "union", "struct named like a union branch",
+               "none (separate import mode)", "opcode (separate import mode)", "opcode of a message (separate import mode)" >>
+DupSeparate(kind) == kind \in {"none (separate import mode)", "opcode (separate import mode)", "opcode of a message (separate import mode)"}
 DupDep(kind) ==
   << St("DepS", << F("a", P("int32")) >>) >> \o
-  (CASE kind = "none" -> << Co("int32", "dc", "2") >>
+  (CASE kind \in {"none", "none (separate import mode)"} -> << Co("int32", "dc", "2") >>
+     [] kind = "opcode (separate import mode)" -> << StOp("DepOp", "0x7", <<7,0,0,0>>, << F("b", P("bool")) >>) >>
+     [] kind = "opcode of a message (separate import mode)" -> << MsOp("DepOpM", "7", <<7,0,0,0>>, << FI(1, "b", P("bool")) >>) >>
      [] kind = "const" -> << Co("int32", "rc", "2") >>
      [] kind = "struct" -> << St("RootS", << F("z", P("bool")) >>) >>
      [] kind = "enum" -> << En("RootE", "", << Mem("B", "1", <<1,0,0,0>>) >>) >>
@@ -479,12 +484,12 @@ Items == CASE part = "base" -> (IF ci = 1 THEN Base ELSE Base2)
            [] part = "sites" -> SiteInjections[ci].items
            [] part = "names" -> NameItems(NameCase(ci).pos, NameCase(ci).nm.n)
            [] part = "impuse" -> ImpItems(ci)
-           [] part = "impdup" -> DupRoot
+           [] part = "impdup" -> (IF DupSeparate(DupKinds[ci]) THEN << DupRoot[1], Co("string", "go_package", "\"example.com/x/root\"") >> \o Tail(DupRoot) ELSE DupRoot)
            [] part = "graph" -> GraphItems(GC.n, GC.g, GC.kind)
 Class == CASE part = "base" -> "" [] part = "inject" -> Injections[ci].class [] part = "sites" -> SiteInjections[ci].class [] part = "names" -> "" [] part = "impuse" -> "" [] part = "impdup" -> Violated(DupInlined(ci)) [] part = "graph" -> "struct necessarily contains itself"
 Site  == CASE part = "base" -> "" [] part = "inject" -> Injections[ci].site [] part = "sites" -> SiteInjections[ci].site
            [] part = "names" -> NameCase(ci).nm.n \o " as " \o NameCase(ci).pos
-           [] part = "impdup" -> "combined import mode, declared in both files: " \o DupKinds[ci]
+           [] part = "impdup" -> "two files, declared in both: " \o DupKinds[ci]
            [] part = "impuse" -> "imported " \o ImpCase(ci).k \o " under wrapper " \o ToString(ImpCase(ci).w) \o " in a " \o ImpCase(ci).h
                                 \o (CASE ImpCase(ci).deps = "one" -> "" [] ImpCase(ci).deps = "two" -> " (from the second of two imported files, the first unused)"
                                        [] OTHER -> " (two imported files, both used)")
@@ -504,14 +509,14 @@ Where == IF part = "sites" THEN SiteInjections[ci].where
 NamesWellFormed == (IsCase /\ part = "names") => Violated(Items) = ""
 ImportUseWellFormed == (IsCase /\ part = "impuse") => Violated(ImpInlined(ci)) = ""
 \* only the "none" variant is well-formed, each other variant violates a rule of the validator
-DupVerdicts == (IsCase /\ part = "impdup") => ((Violated(DupInlined(ci)) = "") <=> (DupKinds[ci] = "none"))
+DupVerdicts == (IsCase /\ part = "impdup") => ((Violated(DupInlined(ci)) = "") <=> (DupKinds[ci] \in {"none", "none (separate import mode)"}))
 NameOf == IF part = "names" THEN NameCase(ci).nm @@ [pos |-> NameCase(ci).pos] ELSE [pos |-> ""]
 \* graphs: direct edges are rejected iff the graph has a cycle; message/union edges never
 GraphVerdicts == (IsCase /\ part = "graph" /\ GC.kind \in {"message", "union"}) => Violated(Items) = ""
 
 Export == IsCase => PrintT("@@PCASE " \o ToJson([part |-> part, ci |-> ci, tokens |-> Tokens(Items), file |-> [x |-> 0],
                                                   extra |-> [class |-> Class, site |-> Site, where |-> Where, expect |-> Expect, name |-> NameOf,
-                                                             dep |-> IF part = "impuse" THEN Tokens(ImpDep) ELSE IF part = "impdup" THEN Tokens(DupDep(DupKinds[ci])) ELSE <<>>,
+                                                             dep |-> IF part = "impuse" THEN Tokens(ImpDep) ELSE IF part = "impdup" THEN Tokens((IF DupSeparate(DupKinds[ci]) THEN << Co("string", "go_package", "\"example.com/x/dep\"") >> ELSE <<>>) \o DupDep(DupKinds[ci])) ELSE <<>>,
                                                              \* combined mode inlines the imported file: it must not define go_package a second time
                                                              depc |-> IF part = "impuse" THEN Tokens(Tail(ImpDep)) ELSE <<>>,
                                                              dep2 |-> IF part = "impuse" /\ ImpCase(ci).deps # "one" THEN Tokens(ImpDep2) ELSE <<>>,
